@@ -7,6 +7,7 @@ CONSTANTS HLEN, MAXSTEPS,
           PACE      \* 0: unrestricted; k > 0: sampling schedule -- with transactions on, every k-th call is processTransaction()
 VARIABLE hist
 RectCat == {<<2, 2, 6, 6>>, <<4, 4, 8, 10>>, <<8, 2, 12, 6>>, <<2, 8, 10, 12>>, <<6, 6, 8, 8>>}
+ResizeCat == {<<4, 4, 8, 10>>, <<6, 6, 8, 8>>, <<2, 2, 6, 6>>}     \* few targets, so that simulation does not spend most calls on resizes
 Moves   == {<<2, 0>>, <<-2, 0>>, <<0, 2>>, <<0, -4>>, <<4, 4>>}
 PtCat   == {<<13, 13>>, <<1, 7>>, <<7, 1>>}
 Init == /\ scene = [s \in ShapeIds |-> NoRect] /\ own = [s \in ShapeIds |-> NoRect] /\ want = [s \in ShapeIds |-> NoRect]
@@ -18,6 +19,7 @@ Next == /\ Len(hist) < HLEN /\ steps < MAXSTEPS
         /\ IF Paced THEN Process /\ Op(<<5>>) ELSE
            \/ \E s \in ShapeIds, r \in RectCat : AddShape(s, r) /\ Op(<<1, s, r[1], r[2], r[3], r[4]>>)
            \/ \E s \in ShapeIds, d \in Moves : MoveRel(s, d) /\ Op(<<2, s, d[1], d[2]>>)
+           \/ \E s \in ShapeIds, r \in ResizeCat : MoveAbs(s, r) /\ Op(<<7, s, r[1], r[2], r[3], r[4]>>)
            \/ \E s \in ShapeIds : DeleteShape(s) /\ Op(<<3, s>>)
            \/ \E c \in ConnIds, e \in 1..2, p \in PtCat : MoveEnd(c, e, p) /\ Op(<<4, c, e - 1, p[1], p[2]>>)
            \/ (txn /\ Process /\ Op(<<5>>))
